@@ -125,7 +125,8 @@ func (b *BpfDevice) nextPacket() ([]byte, error) {
 // Read implements Source.
 func (b *BpfDevice) Read(buf []byte) (int, error) {
 	var payload []byte
-	for payload == nil {
+	// skip frames that carry no IP packet: other EtherTypes, and frames too short to hold one
+	for len(payload) == 0 {
 		if !b.hasNextPacket() {
 			err := b.readPackets()
 			if err != nil {
@@ -144,13 +145,13 @@ func (b *BpfDevice) Read(buf []byte) (int, error) {
 		if b.isLoopback {
 			// Skip the 4-byte DLT_NULL header to get to the IP packet
 			if len(linkFrame) < 4 {
-				return 0, fmt.Errorf("loopback packet too short: %d bytes", len(linkFrame))
+				continue
 			}
 			payload = linkFrame[4:]
 		} else {
 			payload, err = stripEthernetHeader(linkFrame)
 			if err != nil {
-				return 0, err
+				payload = nil
 			}
 		}
 	}
